@@ -541,4 +541,145 @@ def genSmall (tag : String) (full : Bool) (emit : String → IO Unit) : IO Unit 
     for o in smallObjs do
       emit (sCase tag [] smallGraph c o)
 
+/-! ### unwinding past not-yet-started disjunctions (mutation sweep, `State::unwind`)
+  Pending sets in which a FAILING check is followed, at every distance, by disjunctions that have not been
+  started: `unwind` then meets an unstarted disjunction at the front of the top set, above the in-progress
+  disjunction (if any) it has to stop at.  The two mutants of `unwind` the sweep left alive are proved equivalent
+  (Props/C08Unwind.lean); these families keep every OTHER change of the unwinding conditions visible. -/
+
+def uI : Chk := .prim dA .integer
+def uS : Chk := .prim dA .string
+/-- Integer | Name -/
+def uD : Chk := .disj dA (mkAlts [uI, .prim dA .name])
+/-- the same disjunction behind a name (expanded by `push_disjunct`, as a pending set of its own) -/
+def uND : Chk := .named "dj"
+/-- a disjunction with a compound alternative, which fails one level down -/
+def uDD : Chk := .disj dA (mkAlts [.dict dA (chkLOfList [(kA, .required, uI)]), uS])
+/-- a disjunction that carries a predicate of its own (guard + bare disjunction) -/
+def uDP : Chk := .disj ⟨some (.choice [.int 1, nmA]), .allowed⟩ (mkAlts [uI, .prim dA .name])
+
+def uCtx : Ctx := [("dj", uD)]
+def uVals : List Obj := [.int 1, strS, nmA]
+
+/-- exhaustive: dictionaries {A, B, C} with every entry typed Integer / Integer|Name / the named disjunction,
+    against every assignment of an integer, a string, a name to the three keys (729 cases); arrays of 1..3
+    such values against element types that are disjunctions (plain, named, compound, guarded) -/
+def genUnwindSmall (tag : String) (emit : String → IO Unit) : IO Unit := do
+  let ts : List Chk := [uI, uD, uND]
+  for t1 in ts do
+    for t2 in ts do
+      for t3 in ts do
+        let c : Chk := .dict dA (chkLOfList [(kA, .required, t1), (kB, .required, t2), (kC, .required, t3)])
+        for v1 in uVals do
+          for v2 in uVals do
+            for v3 in uVals do
+              emit (sCase tag uCtx [] c (.dict (mkDict [(kA, v1), (kB, v2), (kC, v3)])))
+  let vs := uVals ++ [.dict (mkDict [(kA, .int 1)]), .dict (mkDict [(kA, strS)])]
+  for e in [uD, uND, uDD, uDP] do
+    let c : Chk := .array dA e none
+    for v1 in vs do
+      emit (sCase tag uCtx [] c (mkArr [v1]))
+      for v2 in vs do
+        emit (sCase tag uCtx [] c (mkArr [v1, v2]))
+        for v3 in uVals do
+          emit (sCase tag uCtx [] c (mkArr [v1, v2, v3]))
+
+/-- random: a container (dictionary, heterogeneous array) of 2..4 members typed from the menu above, with
+    mostly fitting members and one or two wrong ones, WRAPPED so that the unwinding happens inside an
+    alternative of an outer disjunction (first / later alternative, behind a name), inside an entry of an
+    outer dictionary that has further (unstarted) entries behind it, or inside an element of an outer array -/
+def genUnwindWrapped (tag : String) (r : Rng) : String × Rng :=
+  let menu : List Chk := [uI, uS, uD, uND, uDD, uDP]
+  let fitTo (c : Chk) (r : Rng) : Obj × Rng :=
+    let (k, r) := r.nat 3
+    if c == uI then (.int 1, r) else if c == uS then (strS, r)
+    else if c == uDD then (if k == 0 then strS else .dict (mkDict [(kA, .int 1)]), r)
+    else (if k == 0 then nmA else .int 1, r)
+  let misfit (c : Chk) (r : Rng) : Obj × Rng :=
+    let (k, r) := r.nat 2
+    if c == uI then (if k == 0 then strS else nmA, r) else if c == uS then (.int 1, r)
+    else if c == uDD then (if k == 0 then .dict (mkDict [(kA, strS)]) else .int 1, r)
+    else if c == uDP then (if k == 0 then nmB else strS, r)
+    else (strS, r)
+  let (n, r) := r.nat 3
+  let n := n + 2
+  let (ts, r) := (List.range n).foldl (fun (acc : List Chk × Rng) _ =>
+    let (t, r) := acc.2.pick menu; (t :: acc.1, r)) ([], r)
+  -- which members are wrong: one position always, a second one half of the time
+  let (bad1, r) := r.nat n
+  let (bad2, r) := r.nat (2 * n)
+  let (allGood, r) := r.nat 6
+  let (vs, r) := ((List.range n).zip ts).foldl (fun (acc : List Obj × Rng) it =>
+    let (v, r) := if allGood != 0 && (it.1 == bad1 || it.1 == bad2) then misfit it.2 acc.2 else fitTo it.2 acc.2
+    (acc.1 ++ [v], r)) ([], r)
+  let keys : List Bytes := [kA, kB, kC, [0x44]]
+  let (shape, r) := r.nat 2
+  let base : Chk :=
+    if shape == 0 then .dict dA (chkLOfList ((keys.zip ts).map fun kt => (kt.1, .required, kt.2)))
+    else .het dA (mkAlts ts)
+  let bobj : Obj :=
+    if shape == 0 then .dict (mkDict (keys.zip vs)) else mkArr vs
+  let (w, r) := r.nat 6
+  let kX : Bytes := [0x58]
+  let kY : Bytes := [0x59]
+  let ctx : Ctx := uCtx ++ [("base", base), ("outer", .disj dA (mkAlts [.named "base", uS]))]
+  let (c, o) : Chk × Obj :=
+    if w == 0 then (.disj dA (mkAlts [base, uS]), bobj)
+    else if w == 1 then (.disj dA (mkAlts [uI, base, .any dA]), bobj)
+    else if w == 2 then (.named "outer", bobj)
+    else if w == 3 then
+      -- an outer dictionary: the container is an entry, followed by an unstarted disjunction and a leaf
+      (.dict dA (chkLOfList [(kX, .required, base), (kY, .required, uD), ([0x5a], .required, uI)]),
+       .dict (mkDict [(kX, bobj), (kY, nmA), ([0x5a], .int 1)]))
+    else if w == 4 then
+      (.array dA (.disj dA (mkAlts [base, uI])) none, mkArr [.int 1, bobj, .int 2, bobj])
+    else
+      -- nested twice: alternative of a disjunction that is an entry of a dictionary that is an alternative
+      (.disj dA (mkAlts [.dict dA (chkLOfList [(kX, .required, .disj dA (mkAlts [uS, base])), (kY, .required, uD)]),
+                          .any ⟨some (.choice [.int 7]), .allowed⟩]),
+       .dict (mkDict [(kX, bobj), (kY, .int 1)]))
+  (sCase tag ctx [] c o, r)
+
+/-! ### named types built by each of the four constructors, referenced BY NAME (mutation sweep, `register`)
+  Client code builds a named type with `TypeCheck::new` (no predicate, indirect objects allowed), `new_refined`
+  (a predicate), `new_indirect` (an indirect requirement) or `new_all` (both); the harness picks the constructor
+  the same way (tc_common.rs `construct`).  A type is only found through `TypeCheck::Named` if its constructor
+  registered it, so every kind of type is referenced by name from every position a check can occur in. -/
+
+def kindAttrs : List Attr :=
+  [dA, ⟨some .always, .allowed⟩, ⟨some (.choice [nmA, .int 1]), .allowed⟩, ⟨none, .required⟩, ⟨none, .forbidden⟩,
+   ⟨some .always, .required⟩, ⟨some (.choice [nmA, .int 1]), .forbidden⟩]
+
+def kindBodies (a : Attr) : List Chk :=
+  [.prim a .name, .any a, .dict a (chkLOfList [(kA, .required, uI)]), .array a uI none,
+   .disj a (mkAlts [uI, .prim dA .name])]
+
+/-- the positions from which the type "tk" is referenced by name -/
+def kindRefs : List Chk :=
+  let t : Chk := .named "tk"
+  [t, .dict dA (chkLOfList [(kB, .required, t)]), .array dA t none, .het dA (mkAlts [uS, t]),
+   .disj dA (mkAlts [uS, t]), .dictStar dA (chkLOfList [(kA, .optional, uI)]) .optional t,
+   .stream dA (chkLOfList [(kA, .required, t)]), .named "via"]
+
+/-- every attribute kind x body x referencing position, with two objects fitted to the specification (the
+    graph receives the indirect objects an indirect requirement needs) and one random object; one case in
+    three registers a decoy under the same name FIRST (the later registration must win) -/
+def genNamedKinds (tag : String) (seed : Nat) (emit : String → IO Unit) : IO Unit := do
+  let mut r := Rng.mk' (seed + 4242)
+  for a in kindAttrs do
+    for body in kindBodies a do
+      for ref in kindRefs do
+        for j in [0, 1, 2] do
+          let (dec, r1) := r.nat 3
+          let ctx : Ctx := (if dec == 0 then [("tk", uS)] else []) ++
+            [("t0", uI), ("tk", body), ("via", .dict dA (chkLOfList [(kC, .required, .named "tk")]))]
+          if j < 2 then
+            let (o, (g, r2)) := fit ctx 4 ref ([], r1)
+            r := r2
+            emit (sCase tag ctx g ref o)
+          else
+            let (o, r2) := genObj 2 r1
+            r := r2
+            emit (sCase tag ctx [((1, 0), nmA), ((2, 0), .int 1)] ref o)
+
 end Driver.TCCodec
